@@ -169,4 +169,32 @@ def exchangesOkMulti (wire : List WEv) : Bool := (monitorM wire).ok
 def acceptsMulti (wire : List WEv) (rs : List Res) : Bool :=
   exchangesOkMulti wire && seqIncreasing wire && ownReply wire rs && closeLast wire
 
+/-! ### a retransmission belongs to the exchange it repeats
+
+Clause (X) looks at single datagrams: a datagram whose reply is lost ends in a time-out of its sender, and what follows
+is "the retransmission or the next request of any thread" - the log alone does not say which.  The request/reply
+EXCHANGE of the property is the whole call: the request, every retransmission of it (`Rmcp(max_retries >= 1)`: IPMI v1.5
+§6.12.? - the console repeats a request that was not answered), and the reply that ends it.  Which datagrams one call
+transmitted is known to whoever observes the interface from outside (the call's entry and return):
+
+   (W) the datagrams of one call are CONSECUTIVE datagrams of the log, all transmitted by the calling thread: no other
+       thread's exchange lies between a request and its retransmission (with (X) / (X′): nothing of another thread lies
+       between the first transmission of a call and the reception - or the last time-out - that ends it).
+-/
+
+/-- One finished call with EVERY datagram it transmitted, in order: the request and its retransmissions. -/
+structure Call where
+  tid : Nat
+  sent : List Nat
+deriving DecidableEq, Repr
+
+/-- consecutive datagram numbers a, a+1, a+2, … -/
+def consecutive : List Nat → Bool
+  | a :: b :: r => b == a + 1 && consecutive (b :: r)
+  | _ => true
+
+/-- Clause (W). -/
+def wholeExchanges (wire : List WEv) (cs : List Call) : Bool :=
+  cs.all fun c => consecutive c.sent && c.sent.all (sentBy wire c.tid)
+
 end PyIpmi.Spec.Threads
